@@ -131,6 +131,10 @@ pub trait TypedProp: Sync + Send {
     fn judge(&self, case: &Self::C) -> Verdict;
     /// Optional extra shrinking after the proptest pass (e.g. text-level ddmin).
     /// `fails(c)` is true when `c` still fails with the same signature.
+    /// upper bound on proptest simplify / complicate steps per failure
+    fn max_shrink_steps(&self) -> usize {
+        600
+    }
     fn shrink_more(&self, case: &Self::C, _fails: &mut dyn FnMut(&Self::C) -> bool) -> Self::C {
         case.clone()
     }
@@ -412,7 +416,7 @@ impl<P: TypedProp + 'static> DynProp for Wrap<P> {
                         if tree.simplify() {
                             loop {
                                 steps += 1;
-                                if steps > 600 {
+                                if steps > self.0.max_shrink_steps() {
                                     break;
                                 }
                                 let cand = tree.current();
